@@ -104,6 +104,16 @@ Example ex_projection_t1 :
   paths_f ex_t1 = [[5]; [1]; [1; 3]; [1; 9]; [1; 9; 2]; [6]; [6; 2]]%Z.
 Proof. split; reflexivity. Qed.
 
+(* the domain hypothesis is needed: a t1 child whose data_id equals that of an
+   unequal t0 sibling is neither matched (by ==) nor added (by data_id) and is
+   lost from the result *)
+Example ex_projection_t1_needs_domain :
+  let t0 := [T 1 (I 1 1 7 true [97] (DStr [107]) None []) []]%Z in
+  let t1 := [T 2 (I 2 2 8 true [98] (DStr [107]) None []) []]%Z in
+  dom_b t0 t1 = false /\
+  paths_f (flat_map drop10 (snd (diff_with [] false false t0 t1))) = [] /\ paths_f t1 = [[2]]%Z.
+Proof. repeat split. Qed.
+
 (* ---- projection to t0 ----------------------------------------------------- *)
 (* dropping ADDED/MOVED_HERE children gives t0's child list IN ORDER below the
    root and below every node present in both trees ([proj0] is defined by
